@@ -293,6 +293,37 @@ func init() {
 				}
 			})
 		}
+		// Part 2e: mixed root styles: the first k roots as list items, the later ones as headings (every forest with at
+		// least two roots, n <= 5, over three names so that the same row text occurs above and below a heading)
+		for n := 2; n <= 5 && !c.Expired(); n++ {
+			enum.DepthSeqs(n, func(d0 []int) {
+				d := append([]int{}, d0...)
+				roots := 0
+				for _, x := range d {
+					if x == 1 {
+						roots++
+					}
+				}
+				if roots < 2 {
+					return
+				}
+				enum.Tuples(n, 2, func(t []int) {
+					if !c.Take() || c.Expired() {
+						return
+					}
+					names := enum.Pick([]string{"a", "b"}, t)
+					cn := &c15Canon{doc: enum.Spell(d, names, enum.Canonical), out: map[string]string{}, roots: roots}
+					c.StateN(1)
+					c.Inc("mixed_root_style_forests")
+					for k := 1; k < roots; k++ {
+						for ui, unit := range []string{"  ", "\t", "    "} {
+							idx++
+							c15Check(c, cn, d, names, enum.Spelling{Unit: unit, Bullets: []byte("-*"), Heading: true, ListRootsFirst: k, CRLF: ui == 1}, idx*16)
+						}
+					}
+				})
+			})
+		}
 		// Part 2d: deep chains in every unit (the same depth is 1 ... 8 times as many columns)
 		for _, depth := range []int{13, 26, 51, 60} {
 			if !c.Take() || c.Expired() {
